@@ -575,13 +575,11 @@ class Generator(object):
 
                 encode_lines = [
                                    '',
-                                   'if ((memcmp(src_p->{}.buf, {}, sizeof({})) != 0) ||'.format(
-                                       name,
-                                       default_variable,
-                                       default_variable),
-                                   '    (src_p->{}.length != sizeof({}))) {{'.format(
-                                       name,
-                                       default_variable)
+                                   'if ({}) {{'.format(
+                                       self.format_buffer_not_default_condition(
+                                           name,
+                                           default_variable,
+                                           member_checker))
                                ] + indent_lines(encode_lines) + [
                                    '}',
                                    ''
@@ -594,14 +592,20 @@ class Generator(object):
                                    '    memcpy(dst_p->{}.buf, {}, sizeof({}));'.format(
                                        name,
                                        default_variable,
-                                       default_variable),
-                                   '    dst_p->{}.length = sizeof({});'.format(
-                                       name,
-                                       default_variable
-                                   ),
-                                   '}',
-                                   ''
+                                       default_variable)
                                ]
+
+                if member_checker.minimum != member_checker.maximum:
+                    decode_lines += [
+                        '    dst_p->{}.length = sizeof({});'.format(
+                            name,
+                            default_variable)
+                    ]
+
+                decode_lines += [
+                    '}',
+                    ''
+                ]
             else:
                 encode_lines = [
                     '',
@@ -627,6 +631,28 @@ class Generator(object):
                 ]
 
         return encode_lines, decode_lines
+
+    @staticmethod
+    def format_buffer_not_default_condition(name,
+                                            default_variable,
+                                            member_checker):
+        """C condition that is true when OCTET STRING member `name` of
+        src_p does not have its default value. Only an OCTET STRING of
+        variable size has a length member.
+
+        """
+
+        condition = '(memcmp(src_p->{}.buf, {}, sizeof({})) != 0)'.format(
+            name,
+            default_variable,
+            default_variable)
+
+        if member_checker.minimum != member_checker.maximum:
+            condition += ' || (src_p->{}.length != sizeof({}))'.format(
+                name,
+                default_variable)
+
+        return condition
 
     def generate_type_declaration(self, compiled_type):
         type_ = compiled_type.type
